@@ -315,14 +315,15 @@ def run(p, report, tier):
                 guarded = True
     report.add("R7.5", sq.qual, "untranslated result is returned only when there is no mapping", f"{sq.file}:{sq.node.lineno}",
                guarded or not none_ret)
-    ff = c01.FnFacts(ie)
-    before = len(report.obligations)
-    c01.check_nan_discipline(p, report, ie, ff)
-    for o in report.obligations[before:]:
-        o.rule = "R7.5"
-    if len(report.obligations) == before:
-        report.add("R7.5", ie.qual, "utilities scattered through the mapping into a NaN-filled array", f"{ie.file}:{ie.node.lineno}", False,
-                   detail="no scatter site found")
+    for fq in (ie, sq):
+        ff = c01.FnFacts(fq)
+        before = len(report.obligations)
+        c01.check_nan_discipline(p, report, fq, ff)
+        for o in report.obligations[before:]:
+            o.rule = "R7.5"
+        if len(report.obligations) == before:
+            report.add("R7.5", fq.qual, "utilities scattered through the mapping into a NaN-filled array",
+                       f"{fq.file}:{fq.node.lineno}", False, detail="no scatter site found")
     # ---------------- R7.4 whole package
     nwhile = 0
     for f in p.all_functions():
